@@ -26,7 +26,7 @@ func ruleConfirmCount() *Rule {
 	return &Rule{
 		ID: id,
 		Text: "(CONFIRM-COUNT) In sendAppendEntries the per-round confirmation counter is incremented only when, after the unlock window, state = Leader ∧ the responder is a member and a voter ∧ ¬(response.Term > currentTerm); " +
-			"the counter is fresh per call of sendAppendEntriesToPeers and starts at 1. " +
+			"the counter is fresh per call of sendAppendEntriesToPeers and starts at 1 only if this node is a voter (on an edge taken when IsVoter[self] holds), at 0 otherwise. " +
 			"(VERIFY-ON-QUORUM, LEASE-RENEW) pending reads are marked quorum-verified and the lease is renewed only from tryApplyReadOnlyOperations, and that is reached only with hasQuorum(counter) of a leader after the window, or in the single-voter cluster.",
 		Floor: 4,
 		Run: func(p *Program) []Obligation {
@@ -532,7 +532,7 @@ func ruleLeaseBorn() *Rule {
 	return &Rule{
 		ID: id,
 		Text: "newLease sets expiration to time.Now() (born expired: it must be renewed by a quorum round before it is valid); newOperationManager builds its lease with newLease; " +
-			"becomeLeader installs a fresh operationManager before anything is sent; renew() sets expiration to time.Now().Add(duration) and isValid() is time.Now().Before(expiration).",
+			"becomeLeader installs a fresh operationManager before anything is sent; a new lease is born expired and isValid() is time.Now().Before(expiration) (how a renewal computes the expiration is LEASE-DURATION's matter).",
 		Floor: 3,
 		Run: func(p *Program) []Obligation {
 			var out []Obligation
